@@ -68,7 +68,19 @@ def evaluate_contract(contract, inputs, observed, next_id, timeout_ms=10000):
             s.add(p)
         s.add(z3.Not(zb(f)))
         r = s.check()
-        verdicts[label] = True if r == z3.unsat else (False if r == z3.sat else None)
+        if r == z3.unsat:
+            verdicts[label] = True
+        elif r == z3.sat:
+            # definitely violated only if the clause itself is unsatisfiable on the observed execution
+            # (clauses mentioning uninterpreted dependency functions stay undetermined)
+            s2 = z3.Solver()
+            s2.set('timeout', timeout_ms)
+            for p in ctx.pc:
+                s2.add(p)
+            s2.add(zb(f))
+            verdicts[label] = False if s2.check() == z3.unsat else None
+        else:
+            verdicts[label] = None
     pre_ok = {}
     for label, f in labelled(contract.pre(CallView(ip, args, {}, h0)), 'pre'):
         s = z3.Solver()
